@@ -132,9 +132,35 @@ func ruleC16(c *Ctx) {
 	if fn := c.Method("render", "Renderer", "SetRasterizer", true); fn != nil {
 		in := c.Interp()
 		c.newRendHooks(in)
-		_, mem, _ := in.Run(fn, nil, nil)
+		// the state before the call: everything the transform is made of is marked "old"
+		st0 := sym.NewMem()
+		z0 := in.ParamObj("z", r.T)
+		rT := r.T.Underlying().(*types.Struct)
+		for i := 0; i < rT.NumFields(); i++ {
+			switch rT.Field(i).Name() {
+			case "scaleX", "scaleY", "biasX", "biasY", "r":
+				st0.Store(z0, sym.Path{sym.F(i)}, sym.Atom("old."+rT.Field(i).Name(), rT.Field(i).Type()))
+			}
+		}
+		_, mem, _ := in.Run(fn, nil, st0)
 		ok := mem != nil
 		detail := ""
+		if ok {
+			// the transform after the call is a function of the new rectangle and the viewBox only
+			for _, f := range []string{"scaleX", "scaleY", "biasX", "biasY"} {
+				v := in.LoadAt(mem, z0, r.fieldPath(f))
+				if strings.Contains(v.Key(), "$old.") {
+					ok = false
+					detail = f + " still depends on the state before the call: " + shortKey(v)
+				}
+				for d := range in.Deps(v) {
+					if strings.HasPrefix(d, "old.") {
+						ok = false
+						detail = f + " still depends on the state before the call (" + d + ")"
+					}
+				}
+			}
+		}
 		if ok {
 			z := in.ParamObj("z", r.T)
 			rv := in.LoadAt(mem, z, r.fieldPath("r"))
